@@ -329,6 +329,26 @@ fn runtype_metadata_arg(schema: &Runtype) -> Expr {
     }
 }
 
+/// The key of an entry in an emitted object literal. `{ "__proto__": x }` would set the prototype of
+/// the literal instead of defining a key: that one name is written as a computed key.
+fn prop_key(name: &str) -> PropName {
+    if name == "__proto__" {
+        return PropName::Computed(swc_ecma_ast::ComputedPropName {
+            span: DUMMY_SP,
+            expr: Box::new(Expr::Lit(Lit::Str(Str {
+                span: DUMMY_SP,
+                value: name.into(),
+                raw: None,
+            }))),
+        });
+    }
+    PropName::Str(Str {
+        span: DUMMY_SP,
+        value: name.into(),
+        raw: None,
+    })
+}
+
 fn string_lit(s: &str) -> Expr {
     Expr::Lit(Lit::Str(Str {
         span: DUMMY_SP,
@@ -533,11 +553,7 @@ fn runtype_any_of_discriminated(
 
                 PropOrSpread::Prop(
                     Prop::KeyValue(KeyValueProp {
-                        key: PropName::Str(Str {
-                            span: DUMMY_SP,
-                            value: current_key.clone().into(),
-                            raw: None,
-                        }),
+                        key: prop_key(&current_key),
                         value: print_runtype(&schema, named_schemas, ctx).into(),
                     })
                     .into(),
@@ -577,11 +593,7 @@ fn runtype_any_of_discriminated(
 
                 PropOrSpread::Prop(
                     Prop::KeyValue(KeyValueProp {
-                        key: PropName::Str(Str {
-                            span: DUMMY_SP,
-                            value: current_key.clone().into(),
-                            raw: None,
-                        }),
+                        key: prop_key(&current_key),
                         value: print_runtype(&schema, named_schemas, ctx).into(),
                     })
                     .into(),
@@ -1082,11 +1094,7 @@ fn print_runtype(schema: &Runtype, named_schemas: &[NamedSchema], ctx: &mut Prin
                     .map(|(key, value)| {
                         PropOrSpread::Prop(
                             Prop::KeyValue(KeyValueProp {
-                                key: PropName::Str(Str {
-                                    span: DUMMY_SP,
-                                    value: key.clone().into(),
-                                    raw: None,
-                                }),
+                                key: prop_key(key),
                                 value: value.clone().into(),
                             })
                             .into(),
@@ -1144,11 +1152,7 @@ fn build_parsers_input(
             .map(|(key, value)| {
                 PropOrSpread::Prop(
                     Prop::KeyValue(KeyValueProp {
-                        key: PropName::Str(Str {
-                            span: DUMMY_SP,
-                            value: key.into(),
-                            raw: None,
-                        }),
+                        key: prop_key(&key),
                         value: value.into(),
                     })
                     .into(),
@@ -1177,11 +1181,7 @@ fn named_runtypes(named_schemas: &[NamedSchema], ctx: &mut PrintContext) -> Expr
             .map(|(key, value)| {
                 PropOrSpread::Prop(
                     Prop::KeyValue(KeyValueProp {
-                        key: PropName::Str(Str {
-                            span: DUMMY_SP,
-                            value: ctx.print_rt_name(&key).into(),
-                            raw: None,
-                        }),
+                        key: prop_key(&ctx.print_rt_name(&key)),
                         value: value.into(),
                     })
                     .into(),
